@@ -378,7 +378,9 @@ func replaceTable(prog *ssa.Program, cfg *Config) map[string]*ssa.Function {
 		if f, ok := byName[to]; ok {
 			tab[from] = f
 		} else {
-			fmt.Fprintf(os.Stderr, "replace target not found: %s\n", to)
+			// a silently ignored replacement would run the real library code instead of the stub
+			fmt.Fprintf(os.Stderr, "FATAL: replace target not found: %s\n", to)
+			os.Exit(3)
 		}
 	}
 	replaceCache.Store(cfg, tab)
